@@ -76,29 +76,33 @@ STYLES = {"same": dict(prefix=""), "explicit": dict(prefix="other"), "prefixstar
 TARGET_NAME = {"same": "x", "explicit": "other", "prefixstar": "p_x", "star": "cp_x"}
 
 
-def mk_classes(style, proto):
+TOP_PREFIX = "zz_"
+TOP_NAME = {"same": "x", "explicit": "other", "prefixstar": "p_x", "star": TOP_PREFIX + "x"}
+
+
+def target_name(style, dn):
+    return {"same": dn, "explicit": "other", "prefixstar": "p_" + dn, "star": "cp_" + dn}[style]
+
+
+def mk_classes(style, proto, topstyle=None):
+    """T <- D (deferring attribute `dn`, prefix style `style`, class prefix 'cp_') [<- DD (attribute x, prefix style `topstyle`,
+    class prefix 'zz_')].  T carries every name any (mis)resolution could produce, each with a distinct default."""
     kind = PrototypedFrom if proto else DelegatesTo
-    tn = TARGET_NAME[style]
-
-    class T(HasTraits):
-        x = Range(0, 100, 1)
-        other = Range(0, 100, 2)
-        p_x = Range(0, 100, 3)
-        cp_x = Range(0, 100, 4)
-
-    class D(HasTraits):
-        __prefix__ = "cp_"
-        t = Instance(T)
-        x = kind("t", **STYLES[style])
-
-    class DD(HasTraits):          # chain of deferral
-        d = Instance(D)
-        x = kind("d")
-
+    dn = TOP_NAME[topstyle] if topstyle else "x"
+    tn = target_name(style, dn)
+    names = []
+    for base in TOP_NAME.values():
+        for cand in (base, "other", "p_" + base, "cp_" + base, TOP_PREFIX + base):
+            if cand not in names:
+                names.append(cand)
+    T = type("T", (HasTraits,), {n_: Range(0, 100, 60 + i) for i, n_ in enumerate(names)})
+    D = type("D", (HasTraits,), {"__prefix__": "cp_", "t": Instance(T), dn: kind("t", **STYLES[style])})
+    DD = type("DD", (HasTraits,), {"__prefix__": TOP_PREFIX, "d": Instance(D), "x": kind("d", **STYLES[topstyle or "same"])})
     return T, D, DD, tn
 
 
 def history_harness(style, proto, k, chain):
+    """chain: None (depth 1) or the prefix style of the upper level of a depth-2 chain"""
     def harness(ex):
         errors = []
         push_exception_handler(lambda *a: errors.append(a), reraise_exceptions=False)
@@ -108,7 +112,7 @@ def history_harness(style, proto, k, chain):
             pop_exception_handler()
 
     def body(ex, errors):
-        T, D, DD, tn = mk_classes(style, proto)
+        T, D, DD, tn = mk_classes(style, proto, chain)
         t1, t2 = T(), T()
         setattr(t2, tn, 50)
         d = D(t=t1)
@@ -246,15 +250,14 @@ def obligations(tier, build):
            Obligation("lazy-chain", lazy_chain_harness, leverage="choice feasibility only"),
            Obligation("cycle", cycle_harness, leverage="none",
                       crash_is_violation="access through a delegation cycle terminates with a Python exception, not a crash")]
-    K = 2 if tier == "quick" else 3
+    K = 3 if tier == "quick" else 4
     for style in STYLES:
         for proto in (False, True):
-            for chain in (False, True):
-                if chain and style != "same" and tier == "quick":
-                    continue
+            for chain in (None,) + tuple(STYLES):
                 obs.append(Obligation("history/%s/%s%s/k=%d" % (style, "PrototypedFrom" if proto else "DelegatesTo",
-                                                                "/chain" if chain else "", K),
+                                                                "/chain-under-%s" % chain if chain else "", K),
                                       history_harness(style, proto, K, chain),
-                                      bounds={"history length": K, "prefix style": style, "chain depth": 2 if chain else 1},
+                                      bounds={"history length": K, "prefix style": style, "chain depth": 2 if chain else 1,
+                                              "prefix style of the upper level": chain},
                                       leverage="choice feasibility only (compiled code runs concretely)", max_paths=100000))
     return obs
